@@ -108,6 +108,32 @@ type egressRuleOut struct {
 	Addr   string `json:"addr"` // hex, 4 or 16 bytes
 	Bits   int    `json:"bits"`
 	Valid  bool   `json:"valid"`
+	// the rule text as netip parses it (ParsePrefix, else ParseAddr with BitLen bits), before parseEgressRule's own handling
+	RawOK   bool   `json:"raw_ok"`
+	RawFam  int    `json:"raw_fam"`
+	RawAddr string `json:"raw_addr"`
+	RawBits int    `json:"raw_bits"`
+	Text    string `json:"text"`
+}
+
+func rawRule(text string, ro *egressRuleOut) {
+	ro.Text = text
+	t := strings.TrimSpace(text)
+	var a netip.Addr
+	if pfx, err := netip.ParsePrefix(t); err == nil {
+		a, ro.RawBits = pfx.Addr(), pfx.Bits()
+	} else if ad, err := netip.ParseAddr(t); err == nil {
+		a, ro.RawBits = ad, ad.BitLen()
+	} else {
+		return
+	}
+	ro.RawOK = true
+	if a.Is4() {
+		ro.RawFam = 4
+	} else {
+		ro.RawFam = 6
+	}
+	ro.RawAddr = hex.EncodeToString(a.AsSlice())
 }
 
 type egressPolicyOut struct {
@@ -194,10 +220,13 @@ func compilePolicy(p egressPolicyIn) (egressPolicyOut, dispatcher.EgressPolicy) 
 	pol := app.VerifC16Policy(compiled)
 	out.OK = true
 	out.HTTPSOnly, out.Redirects, out.Rebind = pol.HTTPSOnly, pol.Redirects, pol.DNSRebindProtection
-	conv := func(rs []dispatcher.EgressRule) []egressRuleOut {
+	conv := func(rs []dispatcher.EgressRule, texts []string) []egressRuleOut {
 		o := make([]egressRuleOut, 0, len(rs))
-		for _, r := range rs {
+		for i, r := range rs {
 			ro := egressRuleOut{IsCIDR: r.IsCIDR, Host: r.Host, Sub: r.Subdomains}
+			if len(texts) == len(rs) {
+				rawRule(texts[i], &ro)
+			}
 			if r.IsCIDR {
 				a := r.CIDR.Addr()
 				ro.Valid = r.CIDR.IsValid()
@@ -213,7 +242,7 @@ func compilePolicy(p egressPolicyIn) (egressPolicyOut, dispatcher.EgressPolicy) 
 		}
 		return o
 	}
-	out.Allow, out.Deny = conv(pol.Allow), conv(pol.Deny)
+	out.Allow, out.Deny = conv(pol.Allow, p.Allow), conv(pol.Deny, p.Deny)
 	return out, pol
 }
 
